@@ -239,6 +239,17 @@ def run(repo: Repo, chk: Check, thorough: bool = False) -> None:
     chk.ob('R14.4', f'{MV}._handleFunctionDef :: the signature built from this node goes to the overload XOR the function', ok,
            'if is_overload_func: overloads.append(FunctionOverload(signature=signature)) else: func.signature = signature' if ok else
            'an overload does not keep its own signature (or overwrites the primary one)', hf.loc)
+    ovt = [n for n in hf.walk() if isinstance(n, ast.Compare) and isinstance(n.ops[0], ast.In) and 'typing.overload' in norm(n.comparators[0])]
+    if not ovt:
+        chk.error('R14.4: the test recognising @overload was not found')
+    for t in ovt:
+        ex = [c for c in ast.walk(t.left) if isinstance(c, ast.Call) and call_name(c) == 'expandName']
+        arg = ex[0].args[0] if ex and ex[0].args else None
+        full = isinstance(arg, ast.Call) and call_name(arg) == 'join' and arg.args and isinstance(arg.args[0], ast.Name)
+        chk.ob('R14.4', f'{MV}._handleFunctionDef :: @overload recognised through the full dotted decorator name', bool(full),
+               f'expandName({norm(arg)})' if full else
+               f'the decorator is expanded from `{norm(arg) if arg is not None else "?"}` only: `@typing.overload` / `@t.overload` are not recognised, '
+               'the overloads become duplicate definitions and only one signature is shown', repo.loc(hf.mod, t))
     fo = repo.func('pydoctor.templatewriter.pages.format_overloads')
     ok = any(isinstance(n, ast.For) and 'func.overloads' in norm(n.iter) for n in fo.walk()) and \
         any(call_name(c) == 'format_function_def' and any(norm(a) == 'overload' for a in c.args) for c in calls_in(fo))
